@@ -83,6 +83,9 @@ func wordsHex(w []uint) string {
 var genGenBech32, genGenVrf func(g *G)
 
 func init() {
+	mirrorOps["bech32.dec"], mirrorOps["bech32.enc"] = "gen.bech32.dec", "gen.bech32.enc"
+	execs["gen.bech32.dec"] = func(a []string) string { return execs["bech32.dec"](a) }
+	execs["gen.bech32.enc"] = func(a []string) string { return execs["bech32.enc"](a) }
 	b6 := map[error]string{b1t6.ErrInvalidTrits: "ErrInvalidTrits", b1t6.ErrInvalidLength: "ErrInvalidLength"}
 	b8 := map[error]string{b1t8.ErrInvalidTrit: "ErrInvalidTrit", b1t8.ErrInvalidLength: "ErrInvalidLength"}
 	cu := map[error]string{consts.ErrInvalidBatchSize: "consts.ErrInvalidBatchSize", consts.ErrInvalidTritsLength: "consts.ErrInvalidTritsLength",
